@@ -194,7 +194,9 @@ where
 
     // Send the initial greeting (client only; server returns empty output).
     let initial_out = self.zmtp_engine.start();
-    self.apply_engine_output_handshake(initial_out).await;
+    self
+      .apply_engine_output_handshake(initial_out, &mut ingress_buffer)
+      .await;
     if matches!(self.current_phase, ConnectionPhaseX::Terminating) {
       self.finalize(actor_drop_guard).await;
       return;
@@ -253,7 +255,9 @@ where
           Ok(Ok(_)) => {
             let data = self.handshake_read_buf.split().freeze();
             let out = self.zmtp_engine.on_network_bytes(data);
-            self.apply_engine_output_handshake(out).await;
+            self
+              .apply_engine_output_handshake(out, &mut ingress_buffer)
+              .await;
           }
         }
       }
@@ -851,7 +855,11 @@ where
   ///
   /// Writes any `NetAction::Send` bytes synchronously (within the handshake timeout),
   /// applies cork state changes, and handles `HandshakeComplete` / `PeerError`.
-  async fn apply_engine_output_handshake(&mut self, output: EngineOutput) {
+  async fn apply_engine_output_handshake(
+    &mut self,
+    output: EngineOutput,
+    ingress_buffer: &mut std::collections::VecDeque<FrameBatch>,
+  ) {
     let hs_timeout = self
       .zmtp_engine
       .config()
@@ -918,7 +926,9 @@ where
           self.set_fatal_error(e).await;
           return;
         }
-        AppAction::DeliverMessage(_) => {}
+        // Data frames that arrived in the same read as the peer's last handshake bytes:
+        // queue them for the operational loop instead of dropping them.
+        AppAction::DeliverMessage(batch) => ingress_buffer.push_back(batch),
       }
     }
   }
